@@ -319,10 +319,12 @@ pub fn generate(rng: &mut Rng, o: &GenOpts) -> Gen {
                             }
                         }
                         11 => {
-                            // non-affine updates: alignment (and sp, -16), constants, scaling
-                            match rng.below(4) {
+                            // non-affine updates: alignment (and sp, -16), constants, negation, scaling; nested affine
+                            match rng.below(6) {
                                 0 | 1 => block.assign(sp.clone(), Expression::And(Box::new(spe), Box::new(cst(!0xfu64, w)))),
                                 2 => block.assign(sp.clone(), cst(0x7000 + rng.below(16) * 8, w)),
+                                3 => block.assign(sp.clone(), Expression::Sub(Box::new(cst(rng.below(64) * 8, w)), Box::new(spe))),
+                                4 => block.assign(sp.clone(), Expression::Sub(Box::new(Expression::Add(Box::new(spe.clone()), Box::new(cst(rng.below(9) * 4, w)))), Box::new(cst(rng.below(9) * 4, w)))),
                                 _ => block.assign(sp.clone(), Expression::Add(Box::new(spe.clone()), Box::new(spe))),
                             }
                         }
